@@ -24,6 +24,7 @@ from export import TypeTable
 COMBO_KEEP = 120          # all combination queries are kept up to this many per function
 COMBO_HEAD = 40
 COMBO_SAMPLE = 60
+EXTRA_COMBOS = 6       # random combinations asked on the graph as built, per function
 MAX_NODES = 4000          # graphs larger than this are not exported (counted)
 
 KIND = {"TypeNode": "type", "DeclarationNode": "decl", "TypeConstructorInstantiationCallNode": "instcall",
@@ -51,6 +52,7 @@ class _Fn:
         self.n_combos = 0
         self.had = {}
         self.too_big = False
+        self.extra = []
         self.rng = _pyrandom.Random(state["seed"] * 7919 + len(state["functions"]))
 
     # -- snapshot of the graph before the first query
@@ -72,6 +74,8 @@ class _Fn:
         if len(order) > MAX_NODES:
             self.too_big = True
         self.index = index
+        self.order = order
+        self.snap = dict(graph)     # the code rebinds keys and never mutates an edge list in place
         nodes = []
         for i, n in enumerate(order):
             k = _kind(n)
@@ -113,6 +117,42 @@ class _Fn:
                 self.had[i] = had
                 d["had"] = had
             nodes.append(d)
+        # ground truth for the harness's reference judge: classes of the real `==` on the types
+        # the nodes carry, and the real dict lookup `type_assignments[tvar.t]`
+        reps = []
+
+        def cls(t):
+            if t is None:
+                return "none"
+            if not isinstance(t, tp.Type):
+                return "other"
+            for ci, r in enumerate(reps):
+                try:
+                    if r == t:
+                        return ci
+                except Exception:  # noqa: BLE001
+                    pass
+            reps.append(t)
+            return len(reps) - 1
+        for i, n in enumerate(order):
+            k = nodes[i]["k"]
+            nodes[i]["tc"] = cls(_safe(lambda: n.decl.get_type()) if k == "decl" else getattr(n, "t", None))
+        for i, n in enumerate(order):
+            if nodes[i]["k"] != "instcall":
+                continue
+            asg = {}
+            try:
+                ta = n.t.get_type_variable_assignments()
+            except Exception:  # noqa: BLE001
+                ta = None
+            for j, m in enumerate(order):
+                if nodes[j]["k"] != "tvar":
+                    continue
+                try:
+                    asg[str(j)] = cls(ta[m.t])
+                except Exception as e:  # noqa: BLE001
+                    asg[str(j)] = "!" + type(e).__name__
+            nodes[i]["asg"] = asg
         self.nodes = nodes
         self.edges = [[index[k], [[index[e.target], 1 if e.is_declared() else 0] for e in graph[k]]]
                       for k in graph.keys()]
@@ -138,6 +178,24 @@ class _Fn:
         if j < len(self.combos_sample):
             self.combos_sample[j] = q
 
+    def extras(self, feasible):
+        """answers of the real test for random combinations on a copy of the graph as built"""
+        out = []
+        if self.too_big or not self.omittable:
+            return out
+        om = self.omittable
+        for _ in range(EXTRA_COMBOS):
+            k = self.rng.randint(1, min(len(om), 6))
+            c = self.rng.sample(om, k)
+            if self.rng.random() < 0.5:
+                c.sort()
+            try:
+                a = bool(feasible(dict(self.snap), tuple(self.order[i] for i in c)))
+            except Exception as e:  # noqa: BLE001
+                a = type(e).__name__
+            out.append([c, a])
+        return out
+
     def to_json(self):
         applied = None
         if self.combo_last is not None and self.combo_last[2] is True:
@@ -158,6 +216,7 @@ class _Fn:
         else:
             out["nodes"] = self.nodes
             out["edges"] = self.edges
+        out["extra"] = self.extra
         return out
 
 
@@ -223,12 +282,27 @@ def install(state, spec):
         fn = _Fn(state, self._namespace + (node.name,))
         prev = state["cur"]
         state["cur"] = fn
+        ok = False
         try:
-            return orig["te_visit"](self, node)
+            r = orig["te_visit"](self, node)
+            ok = True
+            return r
         finally:
-            state["cur"] = prev
+            state["cur"] = None
+            pending = None
             if fn.index is not None:
-                state["functions"].append(fn.to_json())
+                if ok:
+                    try:
+                        fn.extra = fn.extras(orig["feasible"])
+                    except BaseException as e:  # noqa: BLE001  (a cut-off inside the extra queries)
+                        pending = e
+                j = fn.to_json()
+                if not ok:
+                    j["partial"] = True
+                state["functions"].append(j)
+            state["cur"] = prev
+            if pending is not None:
+                raise pending
 
     def find_irr(etype, types, factory):
         ow = state.get("ow_cur")
@@ -324,12 +398,6 @@ def uninstall(state):
 
 
 def collect(state):
-    cur = state.get("cur")
     fns = list(state.get("functions", []))
-    if cur is not None and cur.index is not None:
-        # cut off in the middle of a function: keep what was recorded, marked partial
-        j = cur.to_json()
-        j["partial"] = True
-        fns.append(j)
     return {"erase": {"tt": state["tt"].entries, "functions": fns},
             "overwrite": state.get("overwrite")}
